@@ -2838,6 +2838,9 @@ VPshutdown(void)
     vginstance_t *vg        = NULL;
     int           ret_value = SUCCEED;
 
+    /* Allow the interface to be initialized again */
+    library_terminate = FALSE;
+
     /* Release the vdata free-list if it exists */
     if (vgroup_free_list != NULL) {
         while (vgroup_free_list != NULL) {
